@@ -69,7 +69,7 @@ __all__ = [
     "has_result_metadata_id", "has_reason_map", "has_continuous_paging", "has_next_pages",
     "has_now_in_seconds", "has_custom_payload", "has_warnings", "has_unset", "has_frame_compression",
     "parse_frame_header", "split_frames", "encode_frame", "decode_request", "encode_response",
-    "encode_response_body", "encode_type", "encode_value", "encode_rows_result", "type_to_cql",
+    "encode_response_body", "encode_type", "encode_value", "encode_rows_result", "type_to_cql", "quote_ident",
 ]
 
 
@@ -776,10 +776,24 @@ def encode_type(tree):
     raise ValueError("unknown type tree %r" % (tree,))
 
 
+_CQL_RESERVED = frozenset("""add allow alter and apply asc authorize batch begin by columnfamily create default delete desc
+describe drop entries execute from full grant if in index infinity insert into is keyspace limit materialized mbean mbeans
+modify nan norecursive not null of on or order primary rename replace revoke schema select set table to token truncate
+unlogged unset update use using view where with""".split())
+
+
+def quote_ident(name):
+    """CQL identifier as it must be written in a statement: bare iff it is [a-z][a-z0-9_]* and not a reserved
+    word, otherwise double-quoted with embedded quotes doubled."""
+    ok = bool(name) and name[0] in "abcdefghijklmnopqrstuvwxyz" and \
+        all(ch in "abcdefghijklmnopqrstuvwxyz0123456789_" for ch in name) and name not in _CQL_RESERVED
+    return name if ok else '"%s"' % name.replace('"', '""')
+
+
 def type_to_cql(tree):
     """CQL notation of a type tree as a server prints it in schema tables (tuples and UDTs inside
     results are always frozen): ``list<int>``, ``map<text, int>``, ``frozen<tuple<int, text>>``,
-    ``frozen<udtname>``."""
+    ``frozen<udtname>`` (the name quoted when it is not a bare lower-case identifier)."""
     t = tree["t"]
     if t in _NATIVE_IDS:
         return t
@@ -790,7 +804,7 @@ def type_to_cql(tree):
     if t == "tuple":
         return "frozen<tuple<%s>>" % ", ".join(type_to_cql(x) for x in tree["of"])
     if t == "udt":
-        return "frozen<%s>" % tree["name"]
+        return "frozen<%s>" % quote_ident(tree["name"])
     raise ValueError("no CQL notation for %r" % (tree,))
 
 
